@@ -117,7 +117,17 @@ public:
             cr.push(c);
         }
         p["crashes"] = cr;
-        bool sweep = tier == "thorough" ? f.chance(0.6) : f.chance(0.04);
+        // blind-spot configuration: with 1000 or more loaded points constructSurrogate() stops loading every sample at once, the
+        // checkpoint then ends with a non-empty block of stored samples (CompleteStorage) that the small workloads never produce
+        bool large = w.chance(tier == "thorough" ? 0.06 : 0.04);
+        if (large) {
+            Json lg = Json::object();
+            std::string lf = w.pick<std::string>({"localp", "localp", "semi-localp", "fourier", "sequence", "global"});
+            lg["family"] = lf; p["large"] = lg; p["mode"] = "seq";
+            p["budget_extra"] = w.range(4, 24);
+            for (auto &c : cr.a) { c["bias"] = f.pick<std::string>({"checkpoint", "checkpoint", "any"}); c["tear"] = f.pick<double>({-1.0, -3.0, -8.0, -17.0, -40.0, 0.999, 0.5, f.uniform()}); }
+        }
+        bool sweep = !large && (tier == "thorough" ? f.chance(0.6) : f.chance(0.04));
         if (sweep) { p["sweep"] = true; p["sweep_tear"] = f.uniform(); p["sweep_second"] = (tier == "thorough" && f.chance(0.3)) ? f.range(4, 30) : 0; p["budget"] = std::min<int>((int)p["budget"].integer(), 20); }
         Json sh = Json::object(); sh["lists"] = Json::from(std::vector<std::string>{"crashes"}); sh["ints"] = Json::from(std::vector<std::string>{"budget", "jobs", "batch", "make.depth", "make.outs", "make.dims"});
         Json mn = Json::object(); mn["make.dims"] = 1; mn["make.outs"] = 1; mn["budget"] = 1; mn["jobs"] = 1; mn["batch"] = 1; sh["min"] = mn; p["_shrink"] = sh;
@@ -125,6 +135,36 @@ public:
     }
 
     // process 0 starts with the configured grid, restarts with a visibly different rule
+    static void makeLarge(TasmanianSparseGrid &g, const std::string &fam, int outs) {
+        if (fam == "localp") g.makeLocalPolynomialGrid(2, outs, 8, 1, TasGrid::rule_localp);
+        else if (fam == "semi-localp") g.makeLocalPolynomialGrid(3, outs, 6, 2, TasGrid::rule_semilocalp);
+        else if (fam == "fourier") g.makeFourierGrid(2, outs, 5, TasGrid::type_level);
+        else if (fam == "sequence") g.makeSequenceGrid(2, outs, 44, TasGrid::type_level, TasGrid::rule_rleja);
+        else g.makeGlobalGrid(2, outs, 8, TasGrid::type_level, TasGrid::rule_clenshawcurtis);
+        std::vector<double> v = modelValues(g.getNeededPoints(), g.getNumDimensions(), outs);
+        g.loadNeededValues(v);
+    }
+    static int largeDims(const std::string &fam) { return fam == "semi-localp" ? 3 : 2; }
+    static int largeSize(const std::string &fam) {
+        static std::map<std::string, int> cache;
+        auto it = cache.find(fam);
+        if (it != cache.end()) return it->second;
+        TasmanianSparseGrid g; makeLarge(g, fam, 1);
+        return cache[fam] = g.getNumLoaded();
+    }
+    // the grid the user passes to constructSurrogate(): process 0 starts with the configured grid, restarts with a visibly different rule
+    static void makeUserGrid(TasmanianSparseGrid &g, const Json &p, int process) {
+        if (!p.has("large")) { makeStartGrid(g, p.at("make"), process); return; }
+        std::string fam = p.at("large").gets("family");
+        if (process == 0) { makeLarge(g, fam, 1); return; }
+        if (fam == "localp") g.makeLocalPolynomialGrid(2, 1, 1, 2, TasGrid::rule_localp);
+        else if (fam == "semi-localp") g.makeLocalPolynomialGrid(3, 1, 1, 1, TasGrid::rule_localp);
+        else if (fam == "fourier") g.makeFourierGrid(2, 1, 1, TasGrid::type_level);
+        else if (fam == "sequence") g.makeSequenceGrid(2, 1, 2, TasGrid::type_level, TasGrid::rule_leja);
+        else g.makeGlobalGrid(2, 1, 1, TasGrid::type_level, TasGrid::rule_leja);
+    }
+    static int planBudget(const Json &p) { return p.has("large") ? largeSize(p.at("large").gets("family")) + (int)p.geti("budget_extra", 10) : (int)std::max<int64_t>(1, p.geti("budget", 10)); }
+    static int planDims(const Json &p) { return p.has("large") ? largeDims(p.at("large").gets("family")) : (int)std::max<int64_t>(1, p.at("make").geti("dims", 1)); }
     static void makeStartGrid(TasmanianSparseGrid &g, const Json &mk, int process) {
         if (process == 0) { doMake(g, mk); return; }
         Json m = Json::object(); for (auto &kv : mk.o) m[kv.first] = kv.second;
@@ -146,7 +186,7 @@ public:
             std::string s(it->second.begin(), it->second.end());
             if (F.frozen) L.ghost.push_back(s); else L.completed.push_back(s);
         };
-        makeStartGrid(grid, p.at("make"), process);
+        makeUserGrid(grid, p, process);
         int d = grid.getNumDimensions(), outs = grid.getNumOutputs();
         auto model = [&](std::vector<double> const &x, std::vector<double> &y, size_t) {
             F.event("model");
@@ -154,7 +194,7 @@ public:
             if (!F.frozen) for (size_t i = 0; i < n; i++) L.model_calls.push_back(rounded(&x[i * d], d));
             y = modelValues(x, d, outs);
         };
-        size_t budget = (size_t)std::max<int64_t>(1, p.geti("budget", 10)), jobs = (size_t)std::max<int64_t>(1, p.geti("jobs", 1)), batch = (size_t)std::max<int64_t>(1, p.geti("batch", 1));
+        size_t budget = (size_t)planBudget(p), jobs = (size_t)std::max<int64_t>(1, p.geti("jobs", 1)), batch = (size_t)std::max<int64_t>(1, p.geti("batch", 1));
         // the same candidate callbacks as the three public constructSurrogate() overloads; the first call also records
         // the state the process continues from (after recovery, beginConstruction and loading of the stored samples)
         bool local = grid.isLocalPolynomial() || grid.isWavelet();
@@ -222,7 +262,8 @@ public:
         simfs::FS &F = simfs::fs(); F.reset(); F.st = &st;
         const Json &mk = p.at("make");
         std::string fam = mk.gets("family"), mode = p.gets("mode", "seq");
-        int budget = (int)std::max<int64_t>(1, p.geti("budget", 10)), d = (int)std::max<int64_t>(1, mk.geti("dims", 1));
+        int budget = planBudget(p), d = planDims(p);
+        if (p.has("large")) { fam = p.at("large").gets("family"); st.inc("reach.large_start_grid_runs"); }
         Hash sh; sh.s(fam); sh.s(mk.gets("rule")); sh.i(mk.geti("order")); sh.i(d); sh.i(budget); sh.i(p.geti("jobs")); sh.i(p.geti("batch"));
         std::vector<std::string> truth;  // every checkpoint completed so far, across processes, in order
         std::string inprogress;           // the checkpoint being written when the previous process was killed, as its ghost completed it
@@ -273,7 +314,7 @@ public:
                     else if (!inprogress.empty() && L.start_state == expectedStart(inprogress)) { rec = "in-progress"; st.inc("reach.recovered_from_checkpoint_complete_at_kill"); }
                     else {
                         bool older = false; for (auto &tt : truth) if (L.start_state == expectedStart(tt)) older = true;
-                        TasmanianSparseGrid fresh; makeStartGrid(fresh, mk, (int)proc); fresh.beginConstruction();
+                        TasmanianSparseGrid fresh; makeUserGrid(fresh, p, (int)proc); fresh.beginConstruction();
                         std::ostringstream os; fresh.write(os, TasGrid::mode_binary);
                         rec = older ? "older" : (L.start_state == os.str() ? "scratch" : "garbage");
                     }
@@ -293,6 +334,7 @@ public:
                 // oracle 2: nothing the last completed checkpoint contained is computed again
                 if (!lastCompleted.empty()) {
                     Decoded D = decode(lastCompleted, d);
+                    if (D.ok && !D.stored.empty()) st.inc("reach.restart_after_checkpoint_with_stored_samples");
                     if (D.ok) for (auto &pt : L.model_calls) if (D.loaded.count(pt) || D.stored.count(pt)) {
                         out.fail("recomputed", "C17/" + mode + "/" + prevKillPhase + "/recomputed", "killed in phase '" + prevKillPhase + "' (" + prevKillEvent + "); the restart computed again a sample that the last completed checkpoint already contained");
                         return out;
